@@ -99,6 +99,7 @@ type Log struct {
 	counts map[ikey]int
 	inflt  int
 	novel  map[string]struct{}
+	progress atomic.Int64
 	// Life is 2 for the log of a process that recovers what an earlier process left behind (0/1: first process).
 	Life int
 	// Hook, if set, is called under the mutex for every appended event (used by kill-at-k fault modes
@@ -143,6 +144,7 @@ func (l *Log) appendLocked(e Event) int {
 	}
 	if _, seen := l.novel[key]; !seen {
 		l.novel[key] = struct{}{}
+		l.progress.Add(1)
 		Progress.Add(1)
 	}
 	if l.Hook != nil {
@@ -150,6 +152,9 @@ func (l *Log) appendLocked(e Event) int {
 	}
 	return e.Seq
 }
+
+// Novel returns this log's share of Progress: the number of its events that were new in kind.
+func (l *Log) Novel() int64 { return l.progress.Load() }
 
 // Snapshot returns a copy of the events so far.
 func (l *Log) Snapshot() []Event {
